@@ -216,6 +216,78 @@ func makeIntrinsics() map[string]intrinsic {
 		// a longer string cannot be equal unless its length says so (bytes beyond len are padding)
 		return r
 	}
+	// ---- sync.Map as a plain map keyed by interface values (single-threaded execution, E5) ---------------------
+	syncMap := func(st *State, recv value) *mapV {
+		p, ok := recv.(*value)
+		if !ok || p == nil {
+			panic(pathEnd{kind: "panic", msg: "sync.Map method on a nil pointer"})
+		}
+		if st.syncMaps == nil {
+			st.syncMaps = map[*value]*mapV{}
+		}
+		if st.syncMaps[p] == nil {
+			st.syncMaps[p] = &mapV{}
+		}
+		return st.syncMaps[p]
+	}
+	smFind := func(st *State, m *mapV, key value) int {
+		for i, k := range m.keys {
+			if st.decide(st.eq(k, key)) {
+				return i
+			}
+		}
+		return -1
+	}
+	m["(*sync.Map).Load"] = func(st *State, fr *frame, a []value, cc *ssa.CallCommon) value {
+		mp := syncMap(st, a[0])
+		if i := smFind(st, mp, a[1]); i >= 0 {
+			return tuple{mp.vals[i], True}
+		}
+		return tuple{iface{}, False}
+	}
+	m["(*sync.Map).Store"] = func(st *State, fr *frame, a []value, cc *ssa.CallCommon) value {
+		mp := syncMap(st, a[0])
+		if i := smFind(st, mp, a[1]); i >= 0 {
+			mp.vals[i] = a[2]
+		} else {
+			mp.keys, mp.vals, mp.orig = append(mp.keys, a[1]), append(mp.vals, a[2]), append(mp.orig, nil)
+		}
+		return nil
+	}
+	m["(*sync.Map).LoadOrStore"] = func(st *State, fr *frame, a []value, cc *ssa.CallCommon) value {
+		mp := syncMap(st, a[0])
+		if i := smFind(st, mp, a[1]); i >= 0 {
+			return tuple{mp.vals[i], True}
+		}
+		mp.keys, mp.vals, mp.orig = append(mp.keys, a[1]), append(mp.vals, a[2]), append(mp.orig, nil)
+		return tuple{a[2], False}
+	}
+	smDelete := func(st *State, mp *mapV, key value) (value, bool) {
+		if i := smFind(st, mp, key); i >= 0 {
+			v := mp.vals[i]
+			mp.keys = append(mp.keys[:i:i], mp.keys[i+1:]...)
+			mp.vals = append(mp.vals[:i:i], mp.vals[i+1:]...)
+			mp.orig = append(mp.orig[:i:i], mp.orig[i+1:]...)
+			return v, true
+		}
+		return iface{}, false
+	}
+	m["(*sync.Map).Delete"] = func(st *State, fr *frame, a []value, cc *ssa.CallCommon) value {
+		smDelete(st, syncMap(st, a[0]), a[1])
+		return nil
+	}
+	m["(*sync.Map).LoadAndDelete"] = func(st *State, fr *frame, a []value, cc *ssa.CallCommon) value {
+		v, ok := smDelete(st, syncMap(st, a[0]), a[1])
+		return tuple{v, BoolConst(ok)}
+	}
+	m["(*sync.Map).Clear"] = func(st *State, fr *frame, a []value, cc *ssa.CallCommon) value {
+		mp := syncMap(st, a[0])
+		mp.keys, mp.vals, mp.orig = nil, nil, nil
+		return nil
+	}
+	for _, n := range []string{"(*sync.Mutex).Lock", "(*sync.Mutex).Unlock", "(*sync.RWMutex).Lock", "(*sync.RWMutex).Unlock", "(*sync.RWMutex).RLock", "(*sync.RWMutex).RUnlock"} {
+		m[n] = func(st *State, fr *frame, a []value, cc *ssa.CallCommon) value { return nil }
+	}
 	m["strings.ToUpper"] = func(st *State, fr *frame, a []value, cc *ssa.CallCommon) value {
 		s, ok := a[0].(*Str).Concrete()
 		if !ok {
@@ -1196,7 +1268,10 @@ func makeIntrinsics() map[string]intrinsic {
 	}
 	// ---- codec blobs -------------------------------------------------------------------
 	m[V+"EncodeICS20"] = func(st *State, fr *frame, a []value, cc *ssa.CallCommon) value {
-		return &Str{Len: st.freshVar("ics20_len", BV(64)), Blob: icsBlob{copyVal(a[0])}}
+		return &Str{Len: st.freshVar("ics20_len", BV(64)), Blob: icsBlob{data: copyVal(a[0])}}
+	}
+	m[V+"EncodeICS20Unknown"] = func(st *State, fr *frame, a []value, cc *ssa.CallCommon) value {
+		return &Str{Len: st.freshVar("ics20_len", BV(64)), Blob: icsBlob{data: copyVal(a[0]), unknown: true}}
 	}
 	m[V+"Garbage"] = func(st *State, fr *frame, a []value, cc *ssa.CallCommon) value {
 		return &Str{Len: st.freshVar("garbage_len", BV(64))}
@@ -1216,8 +1291,8 @@ func makeIntrinsics() map[string]intrinsic {
 	}
 	m["(*github.com/cosmos/cosmos-sdk/codec.ProtoCodec).UnmarshalJSON"] = func(st *State, fr *frame, a []value, cc *ssa.CallCommon) value {
 		ib, ok := asStr(a[1]).Blob.(icsBlob)
-		if !ok {
-			return newErr(st, "json")
+		if !ok || ib.unknown {
+			return newErr(st, "json") // the proto JSON codec refuses unknown fields
 		}
 		dst := a[2].(iface).v.(*value)
 		*dst = copyVal(ib.data)
@@ -1226,6 +1301,14 @@ func makeIntrinsics() map[string]intrinsic {
 	m["encoding/json.Unmarshal"] = func(st *State, fr *frame, a []value, cc *ssa.CallCommon) value {
 		src := asStr(a[0])
 		dst := a[1].(iface).v.(*value)
+		if ib, ok := src.Blob.(icsBlob); ok {
+			// encoding/json into the packet struct: lenient (unknown fields ignored)
+			if _, isStruct := (*dst).(structure); isStruct {
+				*dst = copyVal(ib.data)
+				return iface{}
+			}
+			return newErr(st, "json")
+		}
 		jsonObj := iface{t: errObjType, v: &opaque{tag: "jsonobj"}}
 		mp := &mapV{}
 		if mb, ok := src.Blob.(memoBlob); ok {
